@@ -379,4 +379,156 @@ Section Correct.
     Qed.
   End Cases.
 
+  (* leaves through their emitted code *)
+  Lemma leaf_ok' f n fwd off es code es' x l : leaf_code (negb fwd) n <> None ->
+    (forall p gs, ir_results ix (p_unicode prog) utf16 h (S f) n fwd (p, gs) =
+                  match leaf_code (negb fwd) n with
+                  | Some c => results_of (p, gs) (run_insns ix (p_unicode prog) h c fwd p) | None => None end) ->
+    ir_results ix (p_unicode prog) utf16 h (S f) n fwd x = Some l ->
+    emit_node utf16 (p_unicode prog) n off (negb fwd) es = Ok (code, es') ->
+    code_at off code ->
+    forall s, ps_ip s = off -> obs s = x -> ps_l1 s = 0 ->
+    exists ss, map obs ss = l /\
+               Forall (at_end s (off + length code) (es_next_loop es) (es_next_loop es')) ss /\
+               onto fwd [s] ss.
+  Proof.
+    intros Hl Hshape Hr He Hc s Hip Hobs Hl1.
+    destruct (leaf_code (negb fwd) n) as [c|] eqn:El; [|congruence].
+    pose proof (emit_leaf n (negb fwd) es off c El) as He'. rewrite He in He'. inversion He'; subst c es'.
+    destruct x as [p gs]. rewrite Hshape in Hr.
+    eapply leaf_ok; eauto. rewrite El. exact Hr.
+  Qed.
+
+  (* a bracket that needs the table *)
+  Lemma bracket_ok b fwd off es code es' p gs l : bracket_as_ascii b = None ->
+    match next_if ix fwd h p (bracket_matches b) with
+    | Ok (Some p') => Some [(p', gs)] | Ok None => Some [] | Err _ => None end = Some l ->
+    emit_node utf16 (p_unicode prog) (NBracket b) off (negb fwd) es = Ok (code, es') ->
+    code_at off code -> brackets_ok es' ->
+    forall s, ps_ip s = off -> obs s = (p, gs) -> ps_l1 s = 0 ->
+    exists ss, map obs ss = l /\
+               Forall (at_end s (off + length code) (es_next_loop es) (es_next_loop es')) ss /\
+               onto fwd [s] ss.
+  Proof.
+    intros Hb Hr He Hc Hbr s Hip Hobs Hl1.
+    simpl in He. rewrite Hb in He. inversion He; subst code es'. clear He.
+    apply code_at_cons in Hc as [Hi _]. rewrite <- Hip in Hi.
+    assert (Hnb : nth_error (p_brackets prog) (length (es_brackets es)) = Some b).
+    { apply Hbr. simpl. rewrite nth_error_app2 by lia. rewrite Nat.sub_diag. reflexivity. }
+    assert (Hp : ps_pos s = p) by (unfold obs in Hobs; congruence).
+    assert (Hg : ps_groups s = gs) by (unfold obs in Hobs; congruence).
+    assert (Hstep : forall r, next_if ix fwd h p (bracket_matches b) = Ok r ->
+              pk_step ix prog h (fun _ _ => PNoMatch) fwd s =
+              inr (match r with Some p' => PContinue (moved s (S (ps_ip s)) p') | None => PFail end)).
+    { intros r Er. unfold pk_step. rewrite Hi. cbn [match1]. rewrite Hnb, Hp, Er. destruct r; reflexivity. }
+    destruct (next_if ix fwd h p (bracket_matches b)) as [e|[p'|]] eqn:En; [discriminate| |]; inversion Hr; subst l.
+    - exists [moved s (off + 1) p']. repeat split.
+      + simpl. unfold obs. simpl. rewrite Hg. reflexivity.
+      + constructor; [|constructor]. apply at_end_moved; assumption.
+      + replace (off + 1)%nat with (S (ps_ip s)) by lia.
+        apply (onto_plain fwd s (Bracket (length (es_brackets es))) (PContinue (moved s (S (ps_ip s)) p'))); auto.
+        * apply (Hstep (Some p')). reflexivity.
+        * discriminate.
+    - exists []. repeat split; [constructor|].
+      apply (onto_plain fwd s (Bracket (length (es_brackets es))) PFail); auto.
+      + apply (Hstep None). reflexivity.
+      + discriminate.
+  Qed.
+
+  (* one-instruction nodes whose step is a test of the current position *)
+  Lemma cond_step_ok fwd s i (r : R bool) x l lo hi :
+    nth_error (p_insns prog) (ps_ip s) = Some i -> not_look i = true ->
+    pk_step ix prog h (fun _ _ => PNoMatch) fwd s =
+      match (do b <- r; Ok (next_or_fail s b)) with Err e => inl (PError e) | Ok m => inr m end ->
+    cond_results x r = Some l -> obs s = x -> ps_l1 s = 0 ->
+    exists ss, map obs ss = l /\ Forall (at_end s (S (ps_ip s)) lo hi) ss /\ onto fwd [s] ss.
+  Proof.
+    intros Hi Hn Hstep Hr Hobs Hl1.
+    destruct r as [e|[|]]; simpl in Hr; inversion Hr; subst l; simpl in Hstep.
+    - exists [ps_set_ip s (S (ps_ip s))]. repeat split.
+      + simpl. rewrite <- Hobs. reflexivity.
+      + constructor; [|constructor]. repeat split; auto.
+      + apply (onto_plain fwd s i (PContinue (ps_set_ip s (S (ps_ip s))))); auto. discriminate.
+    - exists []. repeat split; [constructor|]. apply (onto_plain fwd s i PFail); auto. discriminate.
+  Qed.
+
+  (* ... or an attempt to advance *)
+  Lemma adv_step_ok fwd s i (r : R (option nat)) l lo hi :
+    nth_error (p_insns prog) (ps_ip s) = Some i -> not_look i = true ->
+    pk_step ix prog h (fun _ _ => PNoMatch) fwd s =
+      match adv_or_fail s r with Err e => inl (PError e) | Ok m => inr m end ->
+    match r with Ok (Some p') => Some [(p', ps_groups s)] | Ok None => Some [] | Err _ => None end = Some l ->
+    ps_l1 s = 0 ->
+    exists ss, map obs ss = l /\ Forall (at_end s (S (ps_ip s)) lo hi) ss /\ onto fwd [s] ss.
+  Proof.
+    intros Hi Hn Hstep Hr Hl1.
+    destruct r as [e|[p'|]]; inversion Hr; subst l; simpl in Hstep.
+    - exists [moved s (S (ps_ip s)) p']. repeat split.
+      + constructor; [|constructor]. apply at_end_moved; assumption.
+      + apply (onto_plain fwd s i (PContinue (moved s (S (ps_ip s)) p'))); auto. discriminate.
+    - exists []. repeat split; [constructor|]. apply (onto_plain fwd s i PFail); auto. discriminate.
+  Qed.
+
+  Lemma backref_go_prog pr1 pr2 fwd sub : p_unicode pr1 = p_unicode pr2 -> forall fuel rp p,
+    backref_icase_go ix pr1 fuel fwd sub rp h p = backref_icase_go ix pr2 fuel fwd sub rp h p.
+  Proof.
+    intros Hu. induction fuel as [|k IH]; intros rp p; [reflexivity|].
+    cbn [backref_icase_go]. destruct (cnext ix fwd sub rp) as [e|[[c1 rp']|]]; cbn [bindR]; try reflexivity.
+    destruct (cnext ix fwd h p) as [e|[[c2 p']|]]; cbn [bindR]; try reflexivity.
+    rewrite Hu, IH. reflexivity.
+  Qed.
+  Lemma backref_match_prog pr1 pr2 ic fwd p rs re : p_unicode pr1 = p_unicode pr2 ->
+    backref_match ix pr1 ic fwd h p rs re = backref_match ix pr2 ic fwd h p rs re.
+  Proof.
+    intro Hu. unfold backref_match. destruct ic; [|reflexivity].
+    destruct (re <? rs)%nat; [reflexivity|]. destruct (length h <? re)%nat; [reflexivity|].
+    apply backref_go_prog. exact Hu.
+  Qed.
+
+  Theorem all_ok : forall f, node_ok f.
+  Proof.
+    induction f as [|f IHf]; intros n fwd off es code es' x l Hsup Hr He Hc Hbr s Hip Hobs Hl1 Hlen.
+    - discriminate Hr.
+    - destruct n as [ | |c|bs|bs|cs|l0|a b| | |sol ml|inv ui|id c nm|g ic|b|alts icase|ng bw sg eg c|body mn mx gr egs ege|body mn mx gr];
+        simpl in Hsup.
+      + (* Empty *)
+        destruct x as [p gs]. simpl in Hr, He. inversion Hr; inversion He; subst. exists [s]. repeat split.
+        * simpl. rewrite Hobs. reflexivity.
+        * constructor; [|constructor]. simpl. rewrite Nat.add_0_r. repeat split; auto.
+        * apply onto_refl.
+      + (* Goal *) discriminate Hsup.
+      + (* Char *) eapply leaf_ok'; eauto; [discriminate | intros; reflexivity].
+      + (* ByteSequence *) eapply leaf_ok'; eauto; [discriminate | intros; reflexivity].
+      + (* ByteSet *)
+        destruct (emit_byte_set bs) as [e|cbs] eqn:Eb; [simpl in He; rewrite Eb in He; discriminate|].
+        eapply leaf_ok'; eauto; [simpl; rewrite Eb; discriminate | intros; reflexivity].
+      + (* CharSet *)
+        destruct (emit_char_set cs) as [e|ccs] eqn:Eb; [simpl in He; rewrite Eb in He; discriminate|].
+        eapply leaf_ok'; eauto; [simpl; rewrite Eb; discriminate | intros; reflexivity].
+      + (* Cat *)
+        destruct x as [p gs]. cbn [ir_results] in Hr.
+        destruct (cat_ok f IHf fwd l0 off es code es' [(p, gs)] l [s] s (es_next_loop es)) as (tt & T1 & T2 & T3); auto.
+        * simpl. rewrite Hobs. reflexivity.
+        * constructor; [|constructor]. repeat split; auto.
+        * exists tt. repeat split; auto.
+      + (* Alt *)
+        apply andb_true_iff in Hsup as [Ha Hb]. eapply (alt_ok f IHf fwd a b); eauto.
+      + (* MatchAny *) eapply leaf_ok'; eauto; [discriminate | intros; reflexivity].
+      + (* MatchAnyExceptLT *) eapply leaf_ok'; eauto; [discriminate | intros; reflexivity].
+      + discriminate Hsup.
+      + discriminate Hsup.
+      + discriminate Hsup.
+      + discriminate Hsup.
+      + (* Bracket *)
+        destruct (bracket_as_ascii b) as [bm|] eqn:Eb.
+        * eapply leaf_ok'; eauto.
+          -- simpl. rewrite Eb. discriminate.
+          -- intros p gs. simpl. rewrite Eb. reflexivity.
+        * destruct x as [p gs]. cbn [ir_results] in Hr. rewrite Eb in Hr. eapply bracket_ok; eauto.
+      + discriminate Hsup.
+      + discriminate Hsup.
+      + discriminate Hsup.
+      + discriminate Hsup.
+  Qed.
+
 End Correct.
